@@ -16,6 +16,7 @@ const (
 	FamCatchup     = "catchup"      // parked in the middle of the height walk
 	FamBeforeStart = "before-start" // parked in waitForBlocks (start height / IsCurrent)
 	FamRetry       = "retry"        // blocks sitting in the retry queue / fetch failures
+	FamStale       = "stale-rewind" // Update+Rewind applied while the caller's current block is off the best chain (stale.go)
 )
 
 // OpKind is one step of a case script.
@@ -37,6 +38,11 @@ const (
 	OpSetCurrent OpKind = "set-current" // IsCurrent() := true
 	OpWaitIdle   OpKind = "wait-idle"   // wait until the rescan makes no more ChainSource calls
 	OpWaitUpd    OpKind = "wait-updates"
+
+	OpRollbackQuiet  OpKind = "rollback-quiet"      // remove N blocks from the visible tip, Disconnected notifications kept back
+	OpNotifyDisc     OpKind = "notify-disconnected" // dispatch (or, Drop, discard) the notifications kept back
+	OpHold           OpKind = "hold"                // park the rescan inside the connected callback of Nodes[0]
+	OpWaitUpdBlocked OpKind = "wait-update-blocked" // wait until the pending Update call is parked on the rescan's update channel
 )
 
 // UpdSpec is one planned Rescan.Update.
@@ -70,6 +76,7 @@ type Op struct {
 	FailKind string
 	Times    int
 	Strict   bool
+	Drop     bool
 }
 
 func (o Op) String() string {
@@ -92,6 +99,12 @@ func (o Op) String() string {
 		return fmt.Sprintf("wait-fail(h=%d)", o.Nodes[0].Height)
 	case OpSettle:
 		return fmt.Sprintf("settle(strict=%v)", o.Strict)
+	case OpRollbackQuiet:
+		return fmt.Sprintf("rollback-quiet(%d)", o.N)
+	case OpNotifyDisc:
+		return fmt.Sprintf("notify-disconnected(drop=%v)", o.Drop)
+	case OpHold:
+		return fmt.Sprintf("hold(cb-connected h=%d)", o.Nodes[0].Height)
 	}
 	return string(o.Kind)
 }
@@ -124,6 +137,7 @@ type Plan struct {
 
 	Ops     []Op
 	Updates []*UpdSpec
+	Stale   *StaleSpec // family stale-rewind only
 
 	// planning state
 	rng     *rand.Rand
@@ -149,6 +163,9 @@ var genesisTime = time.Unix(1_700_000_000, 0)
 
 // MakePlan builds case number idx of the run with the given seed.
 func MakePlan(seed int64, idx int) *Plan {
+	if idx >= StaleBase {
+		return makeStalePlan(seed, idx-StaleBase)
+	}
 	rng := rand.New(rand.NewSource(seed*1_000_003 + int64(idx)*7919 + 17))
 	p := &Plan{Index: idx, Seed: seed, rng: rng, used: map[WatchKey]bool{}, usedOps: map[wire.OutPoint]bool{}}
 
